@@ -9,7 +9,7 @@ fn oracle(input: &str, ext: usize, conv: u8, st: &mut Stats) -> Verdict {
 }
 
 /// executions of the libFuzzer leg (thorough tier), over all jobs
-pub const FUZZ_RUNS: u64 = 16_000_000;
+pub const FUZZ_RUNS: u64 = 8_000_000;
 pub const NONTRIVIAL: &str = "non-trivial = a multi-byte character within 2 bytes of a marker, or a diagnostic was produced";
 
 pub fn run(tier: Tier) -> i32 {
